@@ -213,7 +213,7 @@ def explain_sat_always(op_signal, intervals):
 def explain_sat_historically(op_signal, intervals):
     op_intervals = []
     if intervals:
-        begin, end = intervals[0]
+        end = max(e for b, e in intervals)
         op_intervals.append([0, end])
     return op_intervals
 
@@ -257,7 +257,7 @@ def explain_sat_once(op_signal, intervals):
 def explain_unsat_once(op_signal, intervals):
     op_intervals = []
     if intervals:
-        begin, end = intervals[0]
+        end = max(e for b, e in intervals)
         op_intervals.append([0, end])
     return op_intervals
 
